@@ -11,14 +11,17 @@ IDS = ["C%02d" % i for i in range(1, 20)]
 
 
 def main():
+    try:
+        import niltype  # noqa: F401  (the props modules import d42)
+    except ImportError:
+        os.execv("/venv/bin/python", ["/venv/bin/python", os.path.abspath(__file__)] + sys.argv[1:])
     checks, na = [], []
     for pid in IDS:
         try:
             m = importlib.import_module(f"harness.props.{pid}")
             meta = m.MANIFEST
         except Exception as e:  # noqa: BLE001
-            na.append({"property_id": pid, "reason": f"check not built yet ({type(e).__name__})"})
-            continue
+            raise SystemExit(f"cannot load harness.props.{pid}: {type(e).__name__}: {e}")
         checks.append({
             "property_id": pid,
             "quick_cmd": f"./check {pid} --tier quick",
